@@ -255,8 +255,9 @@ Disp(T, s, t) ==
     [] top.f = "tl"  -> TlStep(T, s, top, t)
     [] OTHER         -> SlStep(T, s, top, t)
 
-\* one reference step: consumes token t in state s (s.v = "run")
-RefStep(T, s, t) == [Disp(T, s, t) EXCEPT !.n = s.n + 1]
+\* one reference step: consumes token t in state s (s.v = "run").  A "junk" token
+\* stands for a byte sequence that is no token at all (lexical error).
+RefStep(T, s, t) == [(IF t.k = "junk" THEN Rej(s, "lexical", "") ELSE Disp(T, s, t)) EXCEPT !.n = s.n + 1]
 
 \* ---------------------------------------------------------- deviations
 \* DevSucc(T, s, t): the implementation's known departures from the reference
